@@ -9,13 +9,15 @@ CHECK = {
         "the 'actual' side is restricted to what a client can put on the wire: GET only for Connect unary, client certificate only inside TLS, HTTP/3 only with TLS; a gRPC request carries 'te: trailers'",
         "the client-certificate aspect is compared only when both the expectation and the request use TLS",
         "a feedback line 'mentions' an aspect if, after the test-name prefix, it contains the aspect's word (version, method, protocol, codec, compression, tls/plain-text, cert)",
+        "unit c12-conc: sequential consistency; a request is preempted only at mutex acquisitions of the packages internal and internal/app/referenceserver (compiled with the vsync shims) and, in the writer_gate scenarios, at every Write the printer issues to the server's stderr; race freedom of the code between those points is not checked here; the requests are synthetic (as in c12-enum) and are handed to referenceServerChecks(inner, internal.NewPrinter(w)) directly, the inner handler returns at once; test names are plain ASCII without ': '",
+        "long histories (c12-enum, kind longhist): the distance between the two requests of a test is measured in distinct other tests (one fully matching request each) on one middleware instance; lengths are those around powers of two and ten up to 2^15+1 (thorough 2^17+1), not every length",
         "timeout grammars are those of the public specifications: Connect-Timeout-Ms = 1..10 ASCII digits; grpc-timeout = 1..8 ASCII digits followed by one of H M S m u n; 'accepted' = the timeout reaches the request info / handler context",
     ],
     "manifest": {
-        "engine": "ENUM",
-        "technique": "bounded-exhaustive enumeration against a reference model",
-        "text": "The real reference-server middleware is driven, without network, with every pair of (expected side: 3 HTTP versions x GET/POST x 3 protocols x 2 codecs x 6 compressions x TLS x client cert = 864) x (every request a client can produce, incl. Connect unary/stream/GET framing, bare gRPC content types, identity spelled out = 672) and judged by a truth table from the property text: no feedback iff all aspects agree, at least one line `<test name>: ...` mentioning every deviating aspect, every line attributable to a deviating aspect; test names as a dimension (34-token alphabet: printf verbs %d %s %v %[1]d %*d ..., %%, 100%, lone %, blank, ':', ': ', quote, backslash, braces, non-ASCII; token at the start / in the middle / at the end of the name and every ordered token pair, x one request per protocol x expected sides, plus repeat, history, overlap, trailers and invalid-timeout cases under such names: every feedback line starts with exactly `<name>: `); plus same test twice, name histories up to length 4, overlapping requests (2 and 3 requests of the same / of different test names in flight together, the inner handler parked on a channel, released in every order: every request after the first of a name is flagged at the moment it arrives, the others are not; channel-forced schedule, no timing), HTTP trailers, missing/empty test name (inner handler not called, error response). Timeout headers: per protocol every string of length <=4 (quick) / <=6 (thorough) over {0,1,9,H,M,S,m,u,n,+,-,space,x}, digit strings of length 7..12 with every unit / none / a bad unit, and computed boundary numbers, against a math/big grammar-and-value model (unit c12-enum). Unit c12-chain runs the same truth table through the handler chain createServer really installs (BidiStream-over-HTTP/1.1 wrapper, mux, checks, raw responder, CORS, h2c) over real connections: 6 connection kinds (HTTP/1.1 client -> HTTP/1.1 server, h2c -> HTTP/2 server, HTTP/1.1 client -> HTTP/2 server, each plain and over TLS) x all 6 RPC procedure paths (Unary, IdempotentUnary, ClientStream, ServerStream, BidiStream, Unimplemented) x 5 protocol shapes x 2 codecs x 2 (thorough: 6) compressions = 720 (2160) requests, each against 144 (thorough: 648, incl. expected client cert) expected sides; feedback lines are attributed by the unique test name after graceful shutdown. Timeout model: accepted iff in the protocol's grammar, context value = digits x unit saturating at MaxInt64 ns, header gone at the inner handler, no context deadline, createRequestInfo echoes the milliseconds.",
-        "note": "Synthetic requests (no real HTTP parsing); keyword-based notion of 'mentions the aspect'; the inner handler is a recorder, createRequestInfo is called on the context it receives as impl.go does.",
+        "engine": "ENUM + GATE",
+        "technique": "bounded-exhaustive enumeration against a reference model; stateless model checking (all lock-level interleavings) of concurrently checked requests",
+        "text": "The real reference-server middleware is driven, without network, with every pair of (expected side: 3 HTTP versions x GET/POST x 3 protocols x 2 codecs x 6 compressions x TLS x client cert = 864) x (every request a client can produce, incl. Connect unary/stream/GET framing, bare gRPC content types, identity spelled out = 672) and judged by a truth table from the property text: no feedback iff all aspects agree, at least one line `<test name>: ...` mentioning every deviating aspect, every line attributable to a deviating aspect; test names as a dimension (34-token alphabet: printf verbs %d %s %v %[1]d %*d ..., %%, 100%, lone %, blank, ':', ': ', quote, backslash, braces, non-ASCII; token at the start / in the middle / at the end of the name and every ordered token pair, x one request per protocol x expected sides, plus repeat, history, overlap, trailers and invalid-timeout cases under such names: every feedback line starts with exactly `<name>: `); plus same test twice, name histories up to length 4, LONG histories on one server (test T, then N distinct other tests, then T again, then the first / middle / last of the N once more and a name never used, for N = 2^k-1, 2^k, 2^k+1, k = 4..15 (thorough: ..17, every protocol) and 10^k-1, 10^k, 10^k+1, k = 2..4 (thorough ..5): 45 histories / 230k requests in the quick tier; the first request of a name is never flagged, every later one is, however many other tests came in between), overlapping requests (2 and 3 requests of the same / of different test names in flight together, the inner handler parked on a channel, released in every order: every request after the first of a name is flagged at the moment it arrives, the others are not; channel-forced schedule, no timing), HTTP trailers, missing/empty test name (inner handler not called, error response). Timeout headers: per protocol every string of length <=4 (quick) / <=6 (thorough) over {0,1,9,H,M,S,m,u,n,+,-,space,x}, digit strings of length 7..12 with every unit / none / a bad unit, and computed boundary numbers, against a math/big grammar-and-value model (unit c12-enum). Unit c12-chain runs the same truth table through the handler chain createServer really installs (BidiStream-over-HTTP/1.1 wrapper, mux, checks, raw responder, CORS, h2c) over real connections: 6 connection kinds (HTTP/1.1 client -> HTTP/1.1 server, h2c -> HTTP/2 server, HTTP/1.1 client -> HTTP/2 server, each plain and over TLS) x all 6 RPC procedure paths (Unary, IdempotentUnary, ClientStream, ServerStream, BidiStream, Unimplemented) x 5 protocol shapes x 2 codecs x 2 (thorough: 6) compressions = 720 (2160) requests, each against 144 (thorough: 648, incl. expected client cert) expected sides; feedback lines are attributed by the unique test name after graceful shutdown. Unit c12-conc (GATE: stateless model checking of the real goroutines in a synctest bubble) serves K = 2..4 requests at the same time through the real referenceServerChecks -> internal.NewPrinter(stderr) path, the packages internal and internal/app/referenceserver compiled with gating mutexes, and executes EVERY interleaving at lock granularity (and, with the slow-writer option, at the granularity of the single Writes to stderr): K=2: every pair of request kinds (matching / 1, 2, 4 deviating aspects / trailers, which are reported after the handler ran) x same or different test name x with and without the slow writer; K=3: every assignment of names x kind triples (quick: reduced alphabet where a name repeats) and codec x 3 with the slow writer; K=4: four different deviating tests, bare repeats (thorough: all 15 name assignments x 4 programs, the largest under preemption bound 2). Each execution is judged: every line is `<name of ONE test that is due feedback>: <message naming no other test>`, no line without a name, no unterminated line, every test due feedback is named, no other is, the truth table per single-request test, the multiset of lines equals that of the same requests served one after the other in some order, every request reaches the inner handler exactly once, no deadlock, no panic. Timeout model: accepted iff in the protocol's grammar, context value = digits x unit saturating at MaxInt64 ns, header gone at the inner handler, no context deadline, createRequestInfo echoes the milliseconds.",
+        "note": "c12-conc: preemption only at mutex acquisitions / stderr writes, sequential consistency. Synthetic requests (no real HTTP parsing); keyword-based notion of 'mentions the aspect'; the inner handler is a recorder, createRequestInfo is called on the context it receives as impl.go does.",
         "design_ref": "DESIGN.md §2.2, §4 C12",
     },
     "units": [
@@ -30,6 +32,15 @@ CHECK = {
             "name": "c12-chain", "pkg": RS,
             "harness": ["referenceserver/c12_test.go", "referenceserver/c12_chain_test.go"],
             "test": "^TestVerifC12Chain$",
+            "shards": {"quick": 16, "thorough": 16},
+            "budget_s": {"quick": 40, "thorough": 420},
+        },
+        {
+            # requests checked at the same time: K goroutines through referenceServerChecks -> internal.NewPrinter under GATE
+            "name": "c12-conc", "pkg": RS, "rewrite": ["internal", RS],
+            "harness": ["referenceserver/c12_test.go", "referenceserver/c12_chain_test.go", "referenceserver/c12_conc_test.go",
+                        "connectconformance/gateutil_test.go@referenceserver"],
+            "test": "^TestVerifC12Conc$", "gomaxprocs": 1,
             "shards": {"quick": 16, "thorough": 16},
             "budget_s": {"quick": 40, "thorough": 420},
         },
